@@ -10,6 +10,7 @@ from fractions import Fraction as Fr
 import numpy as np
 
 import common as C
+import layouts as L
 import fuzzylite as fl
 from props import c03 as T
 
@@ -231,6 +232,12 @@ def check_config(cls, p, h, ys, term=None):
             same = (u != u and w != w) or u == w or abs(u - w) <= 1e-12 * (1 + abs(u))
             if not same:
                 return False, f"{cls}{tuple(p)} height {h}: {nm} array gives {w!r} at y={y!r}, scalar call gives {u!r}", y
+    # the same degrees held in arrays of every memory layout / container, and (for one configuration in eight) a long array
+    long = sum(repr((cls, list(p))).encode()) % 8 == 0
+    ok, d = L.check_elementwise(lambda a: term.tsukamoto(a), ys, f"{cls}{tuple(p)} height {h}: tsukamoto",
+                                scalar=lambda y: tsu(term, y), long=long)
+    if not ok:
+        return False, d, ys[0]
     return True, "ok", None
 
 
